@@ -46,7 +46,7 @@ def CLEAN(text):
 def CONCATENATE(*args):
     def test_arg(arg):
         if isinstance(arg, error.XLError):
-            raise arg
+            raise error.from_message(arg)  # not the host's own object (see utils.inumbers)
         return arg
 
     try:
